@@ -33,13 +33,21 @@ try:
             res[name] = {"kind": kind, "error": "patch does not apply: " + r.stdout[-200:]}
             print(name, "PATCH FAILED"); continue
         hits = {}
-        for c in checks:
-            r = sh("cd %s && ./check %s --tier quick" % (V, c), env=env)
-            v = re.findall(r"^  violated (.*)$", r.stdout, re.M)
-            if "fact extraction failed" in r.stdout:
-                hits[c] = ["<does not compile / extraction failed>"]
-            elif v:
-                hits[c] = v
+        # one process for all checks: the fact base is extracted and loaded once
+        r = sh("cd %s && ./check all --tier quick" % V, env=env)
+        cur = []
+        for line in r.stdout.splitlines():
+            m = re.match(r"^  violated (.*)$", line)
+            if m:
+                cur.append(m.group(1)); continue
+            m = re.match(r"^(C\d+) \[quick\]:", line)
+            if m:
+                if cur:
+                    hits[m.group(1)] = cur
+                cur = []
+            if "fact extraction failed" in line:
+                hits = {c: ["<does not compile / extraction failed>"] for c in checks}
+                break
         res[name] = {"kind": kind, "caught_by": hits, "secs": round(time.time() - t0)}
         print(name, kind, "->", {k: len(v) for k, v in hits.items()} or "MISSED", "%.0fs" % (time.time() - t0), flush=True)
         json.dump(res, open(mpath, "w"), indent=1)
